@@ -354,14 +354,14 @@ def first_default(times, jump_log, a):
 
 class DefaultTimes(Lemma):
     prop = "C17"
-    cases = tuple(("DefaultTime", n) for n in (2, 3, 4)) + tuple(("NthDefaultTimes", n) for n in (2, 3))
+    cases = tuple(("DefaultTime", n, 1) for n in (2, 3, 4)) + (("NthDefaultTimes", 2, 2), ("NthDefaultTimes", 3, 2), ("NthDefaultTimes", 2, 3), ("NthDefaultTimes:identity", 2, 2))
 
     def __init__(self):
         self.name = "property:default-times"
 
     def prove(self, vc, case):
-        cls, n = case
-        nm = f"{self.name}[{cls},{n}]"
+        cls, n, d = case
+        nm = f"{self.name}[{cls},{n},{d}]"
         ts = vc.reals("times", n)
         vc.assume(And(ts[0] == 0, *[x < y for x, y in zip(ts, ts[1:])]))
         times = np.array(ts, dtype=object)
@@ -377,29 +377,46 @@ class DefaultTimes(Lemma):
             v2 = vc.method(o, "value", times, jp, jp)
             vc.check(nm + "::identity-representation-agrees", same(v2, first_default(ts, list(log_of(vc, jp)), a)))
         else:
-            d = 2 if n == 2 else 3
             levels = vc.reals("default_levels", d)
             vc.assume(And(*[x < 0 for x in levels]))
             jl = mk_path(vc, "log_jump_path", (d, n), positive=False)
             singles = [first_default(ts, list(jl[k]), levels[k]) for k in range(d)]
             prev = None
+            ident = cls.endswith(":identity")
+            nm = nm.replace(":identity", "")
             for idx in range(1, d + 1):
                 o = vc.new(UND + "NthDefaultTimes", list(levels), idx)
                 v = vc.method(o, "_value_log", times, jl, jl)
                 # the idx-th smallest of the single-name default times
-                cnt_le = sum(1 for s_ in singles if bool(le(s_, v)))
-                cnt_lt = sum(1 for s_ in singles if bool(lt(s_, v)))
-                vc.check(nm + f"::{idx}-th-default-is-the-{idx}-th-smallest", And(cnt_lt < idx, cnt_le >= idx))
-                if prev is not None:
+                if ident:
+                    cnt_le = cnt_lt = None
+                cnt_le = sum(1 for s_ in singles if bool(le(s_, v))) if not ident else 0
+                cnt_lt = sum(1 for s_ in singles if bool(lt(s_, v))) if not ident else 0
+                if not ident:
+                    vc.check(nm + f"::{idx}-th-default-is-the-{idx}-th-smallest", And(cnt_lt < idx, cnt_le >= idx))
+                if prev is not None and not ident:
                     vc.check(nm + f"::{idx}-th-default-not-before-{idx - 1}-th", le(prev, v))
                 prev = v
+                if not ident:
+                    continue
+                # identity representation (positive jump path) must agree with the log representation of its logarithm
+                from pyvc.sym import PyRaise
+                jp = mk_path(vc, f"jump_path{idx}", (d, n))
+                try:
+                    v_id = vc.method(o, "value", times, jp, jp)
+                except PyRaise as e:
+                    vc.check(nm + f"::{idx}-th-default:identity-representation-evaluates", False)
+                    continue
+                v_lg = vc.method(o, "_value_log", times, log_of(vc, jp), log_of(vc, jp))
+                vc.check(nm + f"::{idx}-th-default:identity-representation-agrees", same(v_id, v_lg))
 
     def replay(self, model, clause, case):
-        cls, n = case
+        cls, n, d = case
         und = native_mod("rpylib.product.underlying")
         times = np.array([fl(v) for v in model.get("times", list(range(n)))][:n], dtype=float)
         if not all(a < b for a, b in zip(times, times[1:])):
             times = np.arange(n, dtype=float)
+        cls = cls.split(":")[0]
         if cls == "DefaultTime":
             a = min(fl(model.get("default_level", -0.5)), -1e-9)
             jl = np.array([fl(v) for v in model.get("log_jump_path", [0.0] * n)][:n])
@@ -407,9 +424,16 @@ class DefaultTimes(Lemma):
             v = o._value_log(times, jl, jl)
             want = next((times[i + 1] for i in range(n - 1) if jl[i + 1] - jl[i] < a), np.inf)
             return (not (v == want), {"times": times.tolist(), "log_jump_path": jl.tolist(), "a": a, "native": float(v), "expected": float(want)})
-        d = 2 if n == 2 else 3
         levels = [min(fl(v), -1e-9) for v in model.get("default_levels", [-0.5] * d)][:d]
         jl = np.array([fl(v) for v in model.get("log_jump_path", [0.0] * (d * n))][: d * n]).reshape(d, n)
+        if "identity-representation" in clause:
+            try:
+                jp = np.exp(jl)
+                vals_id = [float(und.NthDefaultTimes(levels, k).value(times, jp, jp)) for k in range(1, d + 1)]
+                vals_lg = [float(und.NthDefaultTimes(levels, k)._value_log(times, jl, jl)) for k in range(1, d + 1)]
+                return (vals_id != vals_lg, {"identity": vals_id, "log": vals_lg})
+            except Exception as e:
+                return (True, {"levels": levels, "exception": f"{type(e).__name__}: {e}"})
         vals = [float(und.NthDefaultTimes(levels, k)._value_log(times, jl, jl)) for k in range(1, d + 1)]
         singles = sorted(next((times[i + 1] for i in range(n - 1) if jl[k][i + 1] - jl[k][i] < levels[k]), np.inf) for k in range(d))
         return (vals != singles, {"levels": levels, "log_jump_path": jl.tolist(), "nth_default_times": vals, "sorted_single_name_times": singles})
@@ -424,4 +448,68 @@ def lt(a, b):
     return compare(a, b, "<")
 
 
-UNITS += [Averages(), DefaultTimes()]
+class ProductPurity(Lemma):
+    """Product.underlying_value / Product.__call__ on one product object: the value on a path is the value a fresh
+    product gives on that path, whatever was evaluated before (including an earlier path with the same terminal spot),
+    and a change of notional takes effect at the next evaluation."""
+    prop = "C17"
+    cases = (2, 3)
+
+    def __init__(self):
+        self.name = "property:product-history-independence"
+
+    def _mk(self, vc, k, b, notional):
+        CALL = vc.enum(PAY + "PayoffType", "CALL")
+        out = vc.new(PAY + "Barrier", k, CALL, vc.enum(PAY + "BarrierType", "UP_AND_OUT"), b)
+        return vc.new(PRO + "Product", vc.new(UND + "Spot"), out, 1.0, notional)
+
+    def prove(self, vc, n):
+        nm = f"{self.name}[{n}]"
+        k, b, notional, notional2 = vc.real("strike"), vc.real("barrier"), vc.real("notional"), vc.real("notional2")
+        used, fresh = self._mk(vc, k, b, notional), self._mk(vc, k, b, notional)
+        earlier, path = mk_path(vc, "earlier_path", (n,)), mk_path(vc, "path", (n,))
+        times = [float(i) for i in range(n)]
+        it = vc.interp
+        u0 = vc.method(used, "underlying_value", times, earlier, earlier)
+        v0 = it.call(used, [u0], {})
+        u1 = vc.method(used, "underlying_value", times, path, path)
+        v1 = it.call(used, [u1], {})
+        uf_ = vc.method(fresh, "underlying_value", times, path, path)
+        vf = it.call(fresh, [uf_], {})
+        vc.check(nm + "::underlying-value-is-a-function-of-the-path", same(u1, uf_))
+        vc.check(nm + "::value-independent-of-earlier-evaluations", same(v1, vf))
+        hit = Or(*[x > b for x in path])
+        vc.check(nm + "::value-is-notional-times-payoff-of-this-path", same(v1, notional * If(hit, 0.0, pos(path[-1] - k))))
+        it.setattr(used, "notional", notional2)
+        v2 = it.call(used, [u1], {})
+        vc.check(nm + "::notional-change-takes-effect", same(v2, notional2 * If(hit, 0.0, pos(path[-1] - k))))
+
+    def replay(self, model, clause, n):
+        pay, und, pro = native_mod("rpylib.product.payoff"), native_mod("rpylib.product.underlying"), native_mod("rpylib.product.product")
+        k, b = fl(model.get("strike", 90.0)), fl(model.get("barrier", 120.0))
+        no, no2 = fl(model.get("notional", 1.0)), fl(model.get("notional2", 2.0))
+        earlier = np.array([max(fl(v), 1e-6) for v in model.get("earlier_path", [100.0, 130.0, 105.0][:n])][:n])
+        path = np.array([max(fl(v), 1e-6) for v in model.get("path", [100.0, 110.0, 105.0][:n])][:n])
+
+        def mk():
+            return pro.Product(und.Spot(), pay.Barrier(k, pay.PayoffType.CALL, pay.BarrierType.UP_AND_OUT, b), 1.0, no)
+        used, fresh = mk(), mk()
+        t = [float(i) for i in range(n)]
+        v0 = used(used.underlying_value(t, earlier, earlier))
+        u1 = used.underlying_value(t, path, path)
+        v1 = float(used(u1))
+        vf = float(fresh(fresh.underlying_value(t, path, path)))
+        used.notional = no2
+        v2 = float(used(u1))
+        hit = any(x > b for x in path)
+        want = 0.0 if hit else max(path[-1] - k, 0.0)
+        info = {"strike": k, "barrier": b, "earlier_path": earlier.tolist(), "path": path.tolist(), "used_object": v1, "fresh_object": vf,
+                "after_notional_change": v2, "expected": [no * want, no2 * want]}
+        if "notional-change" in clause:
+            return (not Req(v2, no2 * want), info)
+        if "independent" in clause or "function-of-the-path" in clause:
+            return (not Req(v1, vf), info)
+        return (not Req(v1, no * want), info)
+
+
+UNITS += [Averages(), DefaultTimes(), ProductPurity()]
